@@ -3,7 +3,7 @@ file type with extension, path (directory), explicit output names, arrays and
 typed maps of files, structs containing files, nested combinations, null and
 missing files, symbolic links, strings that hold paths."""
 from mro import (call, const, pipeline, program, ref, self_, split, stage, struct, INST, FILE, FILES, FMAP, FSTR, FSTRUCT,
-                 FDIR, FMSTRUCT, FASTRUCT, FILES11, FMISSING, FLINK, FLINK2, FSM, FPLINK, FOUTSIDE)
+                 FDIR, FMSTRUCT, FASTRUCT, FILES11, FMISSING, FLINK, FLINK2, FSM, FPLINK, FOUTSIDE, FMAPK, FILES2D)
 
 FT = ("txt", "bam.bai")
 
@@ -37,6 +37,19 @@ def catalogue():
     P.append(one("po_links", [], "file l, file f, txt chain", {"l": FLINK, "f": FILE, "chain": FLINK2}))
     P.append(one("po_outside", [FS], "file o, txt t, file[] os, FS s, file inside",
                  {"o": FOUTSIDE, "t": FOUTSIDE, "os": const(None), "s": const(None), "inside": FILE}))
+    # files named by invocation arguments with paths relative to mrp's working directory, passed
+    # through to the outputs (they lie outside the pipestance)
+    q = program("po_relinput", [], [stage("P", "int x", "int n", {"n": const(1)})],
+                [pipeline("TOP", "int x, file inp, txt t", "int n, file o, txt t2",
+                          [call("P", binds={"x": self_("x")})],
+                          {"n": ref("P", "n"), "o": self_("inp"), "t2": self_("t")})],
+                "TOP", {"x": 1, "inp": "input/x.bin", "t": "input/deep/notes.txt"}, filetypes=FT)
+    q["rel_files"] = {"o": "input/x.bin", "t2.txt": "input/deep/notes.txt"}
+    P.append(q)
+    P.append(one("po_arr2d", [], "txt[][] grid, file[][] raw", {"grid": FILES2D, "raw": FILES2D}))
+    # typed maps of a user file type whose keys look like file names of that type
+    P.append(one("po_mapkeys_ext", [], "map<txt> tm, map<file> fm",
+                 {"tm": FMAPK("lung.txt", "liver", "liver.txt", "a.b", "txt"), "fm": FMAPK("x.txt", "x", "file")}))
     # a struct whose path-ish members (string, map) come before its file member
     P.append(one("po_struct_order", [struct("SM", "string label, map m, file f")], "SM sm, SM[] sms",
                  {"sm": FSM, "sms": const([])}))
